@@ -371,7 +371,11 @@ pub fn interpret(case: &Case, run: Option<&mut Run>) -> Result<(), String> {
             Op::Bump(k) => {
                 let legal = legal_bumps(src_bytes, !case.bytes_mode, m.end);
                 let n = legal[(*k as usize * legal.len()) >> 16];
-                lex.bump(n);
+                // an in-range bump (new end within the source, on a char boundary) must not panic
+                let r = std::panic::catch_unwind(std::panic::AssertUnwindSafe(|| lex.bump(n)));
+                if r.is_err() {
+                    return Err(format!("{when}: in-range bump({n}) at end {} of a source of {len} bytes panicked", m.end));
+                }
                 m.end += n;
                 last_was_bump = n > 0;
                 last_was_morph = false;
